@@ -25,10 +25,31 @@ structure Error where
   isNil : Bool := true
   deriving Repr, BEq, DecidableEq
 
+/-! ### net/url: what `url.Parse` returns, as far as the translated code looks at it -/
+
+structure URL where
+  isNil : Bool := false
+  Scheme : Str := []
+  hostname : Str := []
+  port : Str := []
+  Path : Str := []
+  deriving Repr, BEq, DecidableEq
+def URL.Scheme! (u : URL) : M Str := if u.isNil then (.error "invalid memory address or nil pointer dereference") else pure u.Scheme
+def URL.Path! (u : URL) : M Str := if u.isNil then (.error "invalid memory address or nil pointer dereference") else pure u.Path
+/-- `(*URL).Hostname()` and `Port()` read `u.Host`: a nil receiver panics -/
+def URL.Hostname! (u : URL) : M Str := if u.isNil then (.error "invalid memory address or nil pointer dereference") else pure u.hostname
+def URL.Port! (u : URL) : M Str := if u.isNil then (.error "invalid memory address or nil pointer dereference") else pure u.port
+
 /-- Results of library calls that the model treats as oracles, supplied per evaluation. -/
 structure Env where
   /-- `regexp.MatchString pattern s` = (matched, err ≠ nil) -/
   regexpMatchString : Str → Str → Bool × Bool := fun _ _ => (false, false)
+  /-- `url.Parse s` = (the URL, nil on failure; err ≠ nil) -/
+  urlParseOracle : Str → URL × Bool := fun _ => ({ isNil := true }, true)
+
+def Env.urlParse (env : Env) (s : Str) : URL × Error :=
+  let r := env.urlParseOracle s
+  (r.1, { isNil := !r.2 })
 
 def Env.regexpMatch (env : Env) (pat s : Str) : Bool × Error :=
   let r := env.regexpMatchString pat s
